@@ -409,7 +409,11 @@ reg(Prop("C16", "Move picker yields every pseudo-legal move exactly once, hash m
                          "calls (depths up to 127: cells at +-1024); history stack 0..3 entries; lower store frame of 0..2048 moves "
                          "(incl. the overflow boundary); in 60% of the cases the weight of every yielded entry is overwritten between the Next calls as the "
                          "search does (search scores, -Inf, or the sentinel / threshold / extreme values); non-trivial = the position has moves; "
-                         "distinct by (fen, hash move, drive, base)"),
+                         "every third position has 0, 1 or 2 quiet pseudo-legal moves (constructed: king walled in at a corner/edge by own blocked men and "
+                         "enemy men, remaining quiet moves blocked at their targets; plus posgen.Themed / posgen.EPOnly filtered by quiet count; 5 hand-made "
+                         "ones), with and without pending SEE-losing captures and good captures (tags quiet=N, bad-captures-pending); in 75% of the cases the "
+                         "move store is a USED one: all 2048 slots pre-filled with stale moves and adversarial stale weights (-HashMove sentinel, "
+                         "-HashMove+1, HashMove, capture band edges, random) through Alloc + Clear; distinct by (fen, hash move, drive, base, stale seed)"),
           StreamCfg("c16h", 800, 20000, judge="judge_c16h",
                     rule="sequences of MoveRanker.FailHigh calls on real positions (search-like depths, saturation with depth 30..127, "
                          "40..120 same-sign small updates, any int8 depth / int16 weight), direct History/CaptHist/Continuation.Add "
